@@ -1,5 +1,6 @@
 """Leth (Ethernet codec sub-check: C19, C05, C06, C07, C01) configuration for ./check"""
 CONF = {
+    'coq_sample': 15,   # cases re-evaluated inside Coq by vm_compute against the extracted runner's output
     'interesting': ['truncated-prefix-of-valid', 'length-extreme', 'length-field', 'trailer-stripped', 'residue-length',
                     'min-frame-padding', 'dirty-buffer', 'no-fixlengths', 'length-boundary'],
     'rule': 'Ethernet II and 802.3 frames built field by field by the harness, decoded, serialized under all option/buffer '
